@@ -15,6 +15,8 @@ import (
 	_ "verif/harness/mon/c09"
 	_ "verif/harness/mon/c10"
 	_ "verif/harness/mon/c11"
+	_ "verif/harness/mon/c12"
+	_ "verif/harness/mon/c14"
 	_ "verif/harness/mon/c15"
 	_ "verif/harness/mon/c16"
 	_ "verif/harness/mon/c17"
